@@ -694,6 +694,11 @@ def static_tie(cm, chk, pid, repo):
             t3, w3 = translate_c02.extra(repo)
             text += t3
             info["translated"] += w3
+            if pid == "C07":
+                import translate_c07                  # apply / convert_2_tensor / the two _implementation methods (harness/translate_c07.py)
+                t4, w4 = translate_c07.extra(repo)
+                text += t4
+                info["translated"] += w4
         else:
             import translate2
             import importlib
